@@ -1,4 +1,5 @@
 SPECIFICATION MCSpec
+VIEW MCView
 CONSTANTS
   Q = 2
   MINPAY = 2
@@ -8,4 +9,5 @@ CONSTANTS
   NCELL = 7
   FIXED = TRUE
   Depth = 6
+  GEN = FALSE
 INVARIANTS Integrity BoundedState EmitInRange OneSlotPerPacket CompleteIfAllArrive HonestExact HonestNoMalformed
